@@ -225,23 +225,32 @@ def ascent(rng, site, basic, idx, budget_s):
             act = [i for i in range(n) if rng.random() < 0.6]
         if not act:
             continue
-        w = [rng.choice([1.0, 1.0, rng.random()]) if i in act else 0.0 for i in range(n)]
-        x = np.zeros(n)
-        step = 8.0
-        while step > 1e-4:
-            y = np.minimum(x + step * np.array(w), np.array(mx))
-            if (y > x).any() and net.is_feasible(y.reshape(n, 1)):
-                x = y
+        if rng.random() < 0.5:
+            # balanced ray: equal totals on the three phase groups (the analytic optimum of the pure
+            # delta constraints), maximised by bisection, then polished coordinate-wise
+            cnt = {g: sum(1 for i in act if phases[i] == g) for g in PHASES}
+            w = [1.0 / cnt[phases[i]] if i in act and cnt.get(phases[i]) else 0.0 for i in range(n)]
+        else:
+            w = [rng.choice([1.0, 1.0, rng.random()]) if i in act else 0.0 for i in range(n)]
+        wa, mxa = np.array(w), np.array(mx)
+        lo, hi = 0.0, 4000.0
+        for _ in range(40):
+            mid = (lo + hi) / 2
+            if net.is_feasible(np.minimum(mid * wa, mxa).reshape(n, 1)):
+                lo = mid
             else:
-                # try the stations one by one before shrinking the step
-                moved = False
-                for i in rng.sample(act, len(act)):
-                    y = x.copy()
-                    y[i] = min(mx[i], y[i] + step)
-                    if y[i] > x[i] and net.is_feasible(y.reshape(n, 1)):
-                        x, moved = y, True
-                if not moved:
-                    step /= 2
+                hi = mid
+        x = np.minimum(lo * wa, mxa)
+        step = 2.0
+        while step > 1e-4:
+            moved = False
+            for i in rng.sample(act, len(act)):
+                y = x.copy()
+                y[i] = min(mx[i], y[i] + step)
+                if y[i] > x[i] and net.is_feasible(y.reshape(n, 1)):
+                    x, moved = y, True
+            if not moved:
+                step /= 2
         X = [[float(v)] for v in x]
         impl = observe(site, basic, idx, X, 1)
         c = dict(input=dict(site=site, basic=basic, idx=idx, X=X, T=1), impl=impl)
